@@ -117,6 +117,18 @@ Definition show_bgval (show_f : N -> bytes) (v : bgval) : bytes :=
 Definition show_bgraph (show_f : N -> bytes) (r : bgraph) : bytes :=
   show3 (bg_chr r) (bg_st r) (bg_en r) ++ TAB :: show_bgval show_f (bg_val r).
 
+(* impl Display for OptionalFields: fields joined by TAB *)
+Fixpoint show_optional_fields (fs : list bytes) : bytes :=
+  match fs with [] => [] | [f] => f | f :: t => f ++ TAB :: show_optional_fields t end.
+(* impl FromStr for Strand: "" -> Empty, "+" / "-", anything else Invalid *)
+Inductive strand_res := SOk (s : strand) | SEmpty | SInvalid.
+Definition strand_from_str (s : bytes) : strand_res :=
+  match s with
+  | [] => SEmpty
+  | [b] => if b =? PLUS then SOk Fwd else if b =? DASH then SOk Rev else SInvalid
+  | _ => SInvalid
+  end.
+
 (* ---------- FromStr ---------- *)
 Inductive perr := MissingChrom | MissingStart | InvalidStart | MissingEnd | InvalidEnd | MissingName
                 | MissingScore | InvalidScore | MissingStrand | InvalidStrand | MissingField | InvalidField.
